@@ -15,10 +15,16 @@ Definition snap_eqb (a b : snap) : bool :=
 Inductive case :=
 | KPure (src_before src_after : snap) (args_before args_after : list snap)
 | KIndep (untouched_before untouched_after : snap)
-         (src_before_derive src_after_derive : snap).
+         (src_before_derive src_after_derive : snap)
+         (shared : Z)          (* mutable containers reachable from both sides / from a side and an argument *)
+         (same_cells : bool).  (* the untouched side owns the same containers after the mutations *)
 
 Definition check (c : case) : nat :=
   match c with
   | KPure b a ab aa => if snap_eqb b a && list_eqb snap_eqb ab aa then 0%nat else 1%nat
-  | KIndep b a sb sa => if snap_eqb b a && snap_eqb sb sa then 0%nat else 1%nat
+  | KIndep b a sb sa sh same =>
+      (* the observable statement of the property first; then the premises of the frame theorem
+         (Proofs/HeapFrameP.v): separation and unchanged ownership (verdict 2: not fixed by the
+         property itself, but the proof of independence for all histories rests on them) *)
+      verdict (snap_eqb b a && snap_eqb sb sa) ((sh =? 0) && same)
   end.
